@@ -91,7 +91,13 @@ func typedPhase(run *evid.Run, al []*elem, broken map[string]bool) {
 	ws, _ := serialise([]*elem{custom})
 	c := conn.NewConn(bufio.NewReader(bytes.NewReader(ws[0])), io.Discard)
 	got, err := c.Read()
-	run.Set("observation_generic_read_of_custom_method", fmt.Sprintf("method FOO_BAR through conn.Read(): got=%s err=%v (ReadRequest reads it correctly)", describeOrNil(got), err))
+	run.Set("generic_read_of_custom_method", fmt.Sprintf("method FOO_BAR through conn.Read(): got=%s err=%v (ReadRequest reads it correctly)", describeOrNil(got), err))
+	// the quantifier says "any method": the generic Read is what a server or client uses, and it must read the
+	// request back like the typed ReadRequest does
+	run.Eval(1)
+	if rq, ok := got.(*base.Request); !ok || err != nil || string(rq.Method) != "FOO_BAR" {
+		run.Violation("request/generic-read/custom-method", caseT{Phase: "typed", Seq: []string{"req-custom-method"}, Msg: fmt.Sprintf("a request with method FOO_BAR written with WriteRequest and read with Conn.Read: got=%s err=%v", describeOrNil(got), err)})
+	}
 }
 
 func describeOrNil(got any) string {
